@@ -46,11 +46,21 @@ static bool timeout_empty(void) { return g_tm_n == 0; }
 static hnd timeout_begin_again(void);
 static hnd primary_find(size_t key) { g_find_calls++; g_find_key = key; return g_find_res; }
 static void primary_erase(hnd p) { __CPROVER_assert(p != 0 && g_primary_n > 0, "primary.erase of a live iterator"); g_primary_n--; if(g_primary_erase_calls < 1000) g_primary_erase_calls++; g_primary_erase_arg = p; }
-static hnd primary_insert(size_t key) { g_primary_n++; g_primary_insert_calls++; g_insert_key = key; return g_new_node; }
+static hnd primary_insert(size_t key) { g_primary_n++; g_primary_insert_calls++; g_insert_key = key; /* value-initialised container(): no trigger links yet */ if(g_new_node < NCAP) g_nd[g_new_node].ntrig = 0; return g_new_node; }
 /* per-trigger list of a node's trigger reference: erase one link; the list may become empty (arbitrary), then the map entry goes */
 static void triglist_erase(hnd list, hnd pos) { __CPROVER_assert(list != 0 && pos != 0 && g_links_n > 0, "erase of a live trigger link"); g_links_n--; if(g_tl_erase_calls < 1000) g_tl_erase_calls++; }
 static bool triglist_empty(hnd list) { int b; return b != 0; }
 static void triggers_erase(hnd list) { g_trig_erase_calls = 1; }
+/* add_trigger / nl_clear container operations */
+size_t g_trig_ins_key; hnd g_ntp_list, g_ntp_pos, g_tlpf_list; hnd g_new_trig_list, g_new_tl_pos;
+static hnd triggers_insert(size_t key) { g_trig_ins_key = key; hnd h = g_new_trig_list; __CPROVER_assume(h != 0); return h; }
+static void tlist_push_front(hnd list, hnd p) { g_links_n++; g_tlpf_list = list; }
+static hnd tlist_begin(hnd list) { hnd h = g_new_tl_pos; __CPROVER_assume(h != 0); return h; }
+static void node_trigs_push_back(hnd p, hnd list, hnd pos) { g_nd[p].ntrig++; g_ntp_list = list; g_ntp_pos = pos; }
+static void timeout_clear(void) { g_tm_n = 0; }
+static void lru_clear(void) { g_lru_n = 0; }
+static void primary_clear(void) { g_primary_n = 0; }
+static void triggers_clear(void) { g_links_n = 0; }
 /* the element the eviction loop may pick: the multimap's first element (smallest deadline) and the LRU list's last element; chosen afresh at every call */
 hnd g_cand_tm, g_cand_lru_node; bool g_cand_tm_valid, g_cand_lru_valid;
 /* the multimap's first element (smallest deadline) is fixed by a ghost statement at the start of every iteration of the eviction loop, whether or not the code looks at it */
@@ -145,30 +155,45 @@ __CPROVER_assigns(self->size, self->triggers_count, g_primary_n, g_lru_n, g_tm_n
 __CPROVER_ensures(RI(self) && g_links_n <= __CPROVER_old(g_links_n) && self->size <= __CPROVER_old(self->size) && (self->size == 0 || self->limit == 0 || self->size < self->limit || g_nomem_seen))
 __CPROVER_ensures(g_del_calls >= __CPROVER_old(g_del_calls) && (size_t)(g_del_calls - __CPROVER_old(g_del_calls)) == __CPROVER_old(self->size) - self->size && (__CPROVER_old(g_del_calls) >= 1 ==> g_del_first == __CPROVER_old(g_del_first)))
 '''),
-    dict(cname='mc_add_trigger', stub=True, sig='void mc_add_trigger(struct mc *self, hnd p, size_t key)', self_arg='self',
-         contract='/* add_trigger(p,key): one more (node, trigger) link, counted (body: triggers map insert + two list pushes, container code) */\n'
-                  '__CPROVER_requires(__CPROVER_rw_ok(self, sizeof(*self)) && p != 0 && p < NCAP && self->triggers_count == g_links_n && g_links_n < 16 * NCAP - 1)\n'
-                  '__CPROVER_assigns(self->triggers_count, g_links_n, g_addtr_calls, g_addtr_last_key, g_addtr_first_key, g_addtr_node)\n'
+    dict(cname='mc_add_trigger', file=M, locate=lit('void add_trigger(pointer p,std::string const &key)'), sig='void mc_add_trigger(struct mc *self, hnd p, size_t key)', self_arg='self', members=['triggers_count'],
+         rewrites=[(r'std::pair<string_type,pointer_list_type> tr\(to_int\(key\),pointer_list_type\(\)\);', '', 1), (r'std::pair<triggers_ptr,bool> r=triggers\.insert\(tr\);', 'hnd r_first = triggers_insert(key);', 0),
+                   (r'triggers_ptr it = r\.first;', 'hnd it = r_first;', 1), (r'it->second\.push_front\(p\)', 'tlist_push_front(it, p)', 0),
+                   (r'p->second\.triggers\.push_back\(trigger_ptr_type\(it,it->second\.begin\(\)\)\)', 'node_trigs_push_back(p, it, tlist_begin(it))', 0)],
+         body_ghost='g_addtr_first_key = (g_addtr_calls == 0) ? key : g_addtr_first_key; g_addtr_last_key = key; g_addtr_node = p; g_addtr_calls = g_addtr_calls + 1;',
+         contract='/* add_trigger(p,key): the trigger map gets (or already has) an entry for the name, the node is linked into that list, the node remembers the link, and the link is counted */\n'
+                  '__CPROVER_requires(__CPROVER_rw_ok(self, sizeof(*self)) && p != 0 && p < NCAP && self->triggers_count == g_links_n && g_links_n < 16 * NCAP - 1 && g_addtr_calls >= 0 && g_addtr_calls <= 2000 && g_nd[p].ntrig <= 16 * NCAP)\n'
+                  '__CPROVER_assigns(self->triggers_count, g_links_n, g_addtr_calls, g_addtr_last_key, g_addtr_first_key, g_addtr_node, g_nd[p].ntrig, g_trig_ins_key, g_ntp_list, g_ntp_pos, g_tlpf_list)\n'
                   '__CPROVER_ensures(self->triggers_count == __CPROVER_old(self->triggers_count) + 1 && g_links_n == __CPROVER_old(g_links_n) + 1 && g_addtr_calls == __CPROVER_old(g_addtr_calls) + 1 && '
-                  'g_addtr_last_key == key && g_addtr_first_key == (__CPROVER_old(g_addtr_calls) == 0 ? key : __CPROVER_old(g_addtr_first_key)) && g_addtr_node == p)'),
+                  'g_addtr_last_key == key && g_addtr_first_key == (__CPROVER_old(g_addtr_calls) == 0 ? key : __CPROVER_old(g_addtr_first_key)) && g_addtr_node == p)\n'
+                  '__CPROVER_ensures(g_nd[p].ntrig == __CPROVER_old(g_nd[p].ntrig) + 1 && g_trig_ins_key == key && g_tlpf_list == g_ntp_list && g_ntp_pos != 0)'),
+    dict(cname='mc_nl_clear', file=M, locate=lit('void nl_clear()'), sig='void mc_nl_clear(struct mc *self)', self_arg='self', members=['size', 'triggers_count', 'limit'],
+         rewrites=[(r'timeout\.clear\(\)', 'timeout_clear()', 0), (r'lru\.clear\(\)', 'lru_clear()', 0), (r'primary\.clear\(\)', 'primary_clear()', 0), (r'triggers\.clear\(\)', 'triggers_clear()', 0),
+                   (r'primary\.rehash\(limit\);', '', 1), (r'triggers\.rehash\(limit\);', '', 1)],
+         contract='__CPROVER_requires(__CPROVER_rw_ok(self, sizeof(*self)))\n__CPROVER_assigns(self->size, self->triggers_count, g_primary_n, g_lru_n, g_tm_n, g_links_n)\n'
+                  '/* clear: every structure is emptied and both counters are reset: the cache can be refilled from scratch */\n'
+                  '__CPROVER_ensures(RI(self) && self->size == 0 && self->triggers_count == 0)'),
+    dict(cname='mc_stats', file=M, locate=lit('virtual void stats(unsigned &keys,unsigned &triggers)'), sig='void mc_stats(struct mc *self, unsigned *keys, unsigned *triggers)', self_arg='self', refs=['keys', 'triggers'],
+         members=['size', 'triggers_count'], rewrites=[(r'rdlock_guard lock\(\*access_lock\);', '', 1)],
+         contract='__CPROVER_requires(__CPROVER_r_ok(self, sizeof(*self)) && RI(self) && __CPROVER_w_ok(keys, sizeof(*keys)) && __CPROVER_w_ok(triggers, sizeof(*triggers)))\n__CPROVER_assigns(*keys, *triggers)\n'
+                  '/* the reported counts are the container cardinalities */\n__CPROVER_ensures(*keys == (unsigned)g_primary_n && *triggers == (unsigned)g_links_n)'),
     dict(cname='mc_store', file=M, locate=r'virtual void store\(\s*std::string const &key,\s*std::string const &a,\s*std::set<std::string> const &triggers_in,\s*time_t timeout_in,\s*uint64_t const \*gen\)',
          sig='void mc_store(struct mc *self, size_t key, size_t a, struct idset const *triggers_in, time_t timeout_in, uint64_t const *gen)', self_arg='self', members=['size', 'generation'],
          rename={'delete_node': 'mc_delete_node', 'check_limits': 'mc_check_limits', 'add_trigger': 'mc_add_trigger'},
          rewrites=[(r'string_type ar;', 'size_t ar = 0;', 1), (r'try \{', '{', 2), (r'string_type tmp = to_int\(a\);', 'size_t tmp = a;', 1), (r'ar\.swap\(tmp\);', 'ar = tmp;', 1),
                    (r'catch\(std::bad_alloc const &\)\s*\{\s*return;\s*\}', '', 1), (r'catch\(std::bad_alloc const &e\)\s*\{\s*nl_clear\(\);\s*\}', '', 1),
-                   (r'wrlock_guard lock\(\*access_lock\);', '', 1), (r'pointer main;', 'hnd main;', 1), (r'primary\.find\(key\)', 'primary_find(key)', 1), (r'primary\.end\(\)', '0', 1),
+                   (r'wrlock_guard lock\(\*access_lock\);', '', 1), (r'pointer main\b', 'hnd main', 1), (r'primary\.find\(key\)', 'primary_find(key)', 1), (r'primary\.end\(\)', '0', 1),
                    (r'string_type int_key = to_int\(key\);', '', 1),
                    (r'std::pair<pointer,bool> res=primary\.insert\(std::pair<string_type,container>\(int_key,container\(\)\)\);', 'hnd res_first = primary_insert(key);', 0),
                    (r'main=res\.first;', 'main = res_first;', 1), (r'container &cont=main->second;', 'struct node *cont = ND(main);', 1), (r'cont\.data\.swap\(ar\);', 'cont->data = ar;', 0),
                    (r'cont\.', 'cont->', 4), (r'lru\.push_front\(main\)', 'lru_push_front(main)', 0), (r'lru\.begin\(\)', 'lru_begin()', 1),
                    (r'timeout\.insert\(std::pair<time_t,pointer>\(timeout_in,main\)\)', 'timeout_insert(timeout_in, main)', 0),
-                   (r'triggers_in\.find\(key\)', 'set_find_key(triggers_in)', 1), (r'std::set<std::string>::const_iterator si;', 'size_t si;', 1),
-                   (r'triggers_in\.begin\(\)', '0', 1), (r'triggers_in\.end\(\)', 'triggers_in->n', 2), (r'\*si\b', 'set_elem(triggers_in, si)', 1)],
+                   (r'triggers_in\.find\(key\)', 'set_find_key(triggers_in)', 0), (r'\btriggers\.find\(key\)', 'triggers_find(key)', 0), (r'\btriggers\.end\(\)', '0', 0), (r'std::set<std::string>::const_iterator si;', 'size_t si;', 1),
+                   (r'triggers_in\.begin\(\)', '0', 1), (r'triggers_in\.end\(\)', 'triggers_in->n', 1), (r'\*si\b', 'set_elem(triggers_in, si)', 1)],
          body_ghost='g_gen0 = self->generation; g_policy_on = 0;',
          inserts=[(r'mc_delete_node\(self, main\);', 0, 'g_policy_on = 1;')],
          loops={0: r'''
-__CPROVER_assigns(si, self->triggers_count, g_links_n, g_addtr_calls, g_addtr_last_key, g_addtr_first_key, g_addtr_node)
-__CPROVER_loop_invariant(si <= triggers_in->n && self->triggers_count == g_links_n && g_links_n <= 15 * NCAP + si + 1 && g_addtr_calls == (int)si + (triggers_in->has_key ? 0 : 1) && (g_addtr_calls > 0 ==> g_addtr_node == main) && (!triggers_in->has_key ==> g_addtr_first_key == key) && main != 0 && main < NCAP)
+__CPROVER_assigns(si, self->triggers_count, g_links_n, g_addtr_calls, g_addtr_last_key, g_addtr_first_key, g_addtr_node, g_nd[main].ntrig, g_trig_ins_key, g_ntp_list, g_ntp_pos, g_tlpf_list)
+__CPROVER_loop_invariant(si <= triggers_in->n && self->triggers_count == g_links_n && g_links_n <= 15 * NCAP + si + 1 && g_addtr_calls == (int)si + (triggers_in->has_key ? 0 : 1) && (g_addtr_calls > 0 ==> g_addtr_node == main) && (!triggers_in->has_key ==> g_addtr_first_key == key) && main != 0 && main < NCAP && g_nd[main].ntrig <= si + 1 && g_addtr_calls >= 0)
 __CPROVER_decreases(triggers_in->n - si)'''},
          contract=r'''
 __CPROVER_requires(__CPROVER_rw_ok(self, sizeof(*self)) && RI(self) && g_primary_n < NCAP && g_links_n <= 15 * NCAP && triggers_in->n <= 1000 && __CPROVER_r_ok(triggers_in->id, triggers_in->n * sizeof(size_t)) &&
@@ -177,7 +202,7 @@ __CPROVER_requires(__CPROVER_rw_ok(self, sizeof(*self)) && RI(self) && g_primary
 __CPROVER_assigns(self->size, self->triggers_count, self->generation, g_primary_n, g_lru_n, g_tm_n, g_links_n, g_lru_erase_calls, g_lru_erase_arg, g_tm_erase_calls, g_tm_erase_arg, g_primary_erase_calls, g_primary_erase_arg,
                   g_tl_erase_calls, g_trig_erase_calls, g_del_calls, g_del_first, g_del_last, g_del_at_vi, g_cand_tm, g_cand_tm_valid, g_cand_lru_node, g_cand_lru_valid, g_time_calls, g_find_calls, g_find_key,
                   g_primary_insert_calls, g_insert_key, g_lru_push_calls, g_lru_push_arg, g_lru_front, g_tm_insert_calls, g_tm_insert_deadline, g_tm_insert_node, g_addtr_calls, g_addtr_last_key, g_addtr_first_key, g_addtr_node,
-                  g_gen0, g_policy_on, g_nomem_seen, g_nd[g_new_node])
+                  g_gen0, g_policy_on, g_nomem_seen, g_nd[g_new_node], g_trig_ins_key, g_ntp_list, g_ntp_pos, g_tlpf_list)
 __CPROVER_ensures(RI(self) && g_find_calls == 1 && g_find_key == key)
 /* an entry already stored under the key is removed first (superseded data can never be found again) */
 __CPROVER_ensures(g_find_res != 0 ==> (g_del_calls >= 1 && g_del_first == g_find_res))
@@ -322,6 +347,9 @@ SETUP = r'''
 jobs = [
     dict(name='mc_delete_node', props=P78, replay='c07:history', replay_link=['-fno-access-control', '-L{BUILD}', '-lcppcms', '-L{BUILD}/booster', '-lbooster', '-lpthread'], replay_exhaustive='the real thread cache with limits 0,1,2,3,5 through 4000-step pseudo-random histories of store/fetch/rise/remove/clear (keys that are also trigger names, expired and live deadlines) against a reference model (map + LRU list + expired-first eviction); fetch results and key/trigger counts compared after every step', enforce='mc_delete_node', harness=SETUP + 'hnd p; mc_delete_node(&c, p); VERIF_REACH;'),
     dict(name='mc_check_limits', props=P8, replay='c07:history', replay_link=['-fno-access-control', '-L{BUILD}', '-lcppcms', '-L{BUILD}/booster', '-lbooster', '-lpthread'], replay_exhaustive='the real thread cache with limits 0,1,2,3,5 through 4000-step pseudo-random histories of store/fetch/rise/remove/clear (keys that are also trigger names, expired and live deadlines) against a reference model (map + LRU list + expired-first eviction); fetch results and key/trigger counts compared after every step', enforce='mc_check_limits', replace=['mc_delete_node'], per_property=r'.', pp_chunk=8, pp_workers=14, timeout=600, harness=SETUP + 'mc_check_limits(&c); VERIF_REACH;'),
+    dict(name='mc_add_trigger', props=P78, enforce='mc_add_trigger', harness=SETUP + 'hnd p, tl1, tl2; size_t key; g_new_trig_list = tl1; g_new_tl_pos = tl2; mc_add_trigger(&c, p, key); VERIF_REACH;'),
+    dict(name='mc_nl_clear', props=P78, enforce='mc_nl_clear', harness=SETUP + 'mc_nl_clear(&c); VERIF_REACH;'),
+    dict(name='mc_stats', props=P8, enforce='mc_stats', harness=SETUP + 'unsigned k, t; mc_stats(&c, &k, &t); VERIF_REACH;'),
     dict(name='mc_store', props=P78, replay='c07:history', replay_link=['-fno-access-control', '-L{BUILD}', '-lcppcms', '-L{BUILD}/booster', '-lbooster', '-lpthread'], replay_exhaustive='the real thread cache with limits 0,1,2,3,5 through 4000-step pseudo-random histories of store/fetch/rise/remove/clear (keys that are also trigger names, expired and live deadlines) against a reference model (map + LRU list + expired-first eviction); fetch results and key/trigger counts compared after every step', enforce='mc_store', replace=['mc_delete_node', 'mc_check_limits', 'mc_add_trigger'], per_property=r'.', pp_chunk=8, pp_workers=14, timeout=600, harness=SETUP + r'''
     struct idset ts; size_t tn; __CPROVER_assume(tn <= 1000); ts.n = tn; ts.id = malloc(tn * sizeof(size_t)); __CPROVER_assume(ts.id != NULL); int hk; ts.has_key = hk != 0;
     size_t key, a; time_t to; uint64_t gv; int gn; mc_store(&c, key, a, &ts, to, gn ? &gv : 0); VERIF_REACH;'''),
@@ -347,7 +375,7 @@ UNIT = dict(
     pre=PRE,
     trusted=['memcache: hash_map / std::list / std::multimap are abstract: iterators are handles, each operation is a recorder that maintains ghost cardinalities; their own correctness (private/hash_map.h, libstdc++) is assumed',
              'memcache: locks are dropped (sequential contracts; C09 is not applicable); std::bad_alloc paths (try/catch -> nl_clear) are cut: allocation is assumed to succeed',
-             'memcache: add_trigger and nl_clear are contract stubs (pure container code)'],
+             'memcache: set_find_key / triggers_find return oracle values chosen by the harness'],
     not_covered={'C07': ['the history-level statement (a fetch returns the value of the most recent store unless invalidated) is a composition of the per-call contracts with the container semantics; cache_interface trigger recorders; process-shared allocator'],
                  'C08': ['LRU order itself is std::list semantics (front = most recent is maintained by store/fetch, back is evicted: both under contract); buddy/shmem allocator; statistics across histories']},
 )
